@@ -6,6 +6,7 @@ the round-4 extension files `Model/C08Views*.lean` (further view kernels, each w
 This file only dispatches protocol lines `c08 kind=…`.  No Mathlib here (linked into the driver).
 -/
 import Mahotas.Model.C08Base
+import Mahotas.Model.C08ViewsA
 namespace Mahotas.C08
 open Mahotas
 
@@ -93,6 +94,7 @@ def handleBase (a : Args) : String :=
 /-- protocol entry: round-4 kinds are tried first, everything else is `handleBase` -/
 def handle (a : Args) : String :=
   match a.str "kind" with
+  | "kviewA" => handleViewsA a
   | _ => handleBase a
 
 end Mahotas.C08
